@@ -23,11 +23,14 @@ PROPERTY = 'C18'
 RULE = ('Hypothesis draws skool files (1-3 entries; title, 0-3 description paragraphs, register lines with prefixes, start '
         'comment, instructions with single comments, continuation lines, brace groups of 2-5 instructions, mid-block and end '
         'comments; words of length 1-150 with punctuation, braces inside words) and writer settings (line-width 40-200, '
-        'instruction-width, comment-width-min, indent, tab, crlf); and annotated control files for sna2skool with -w 40-200. '
-        'Non-trivial: at least one comment was wrapped onto >= 2 output lines and there is a group of >= 2 instructions; '
+        'instruction-width, comment-width-min, indent, tab, crlf); annotated control files for sna2skool with -w 40-200; and '
+        'entries whose description or mid-block comment holds a #TABLE block (1-4 columns, :w columns, header and colspan rows) '
+        'and a #LIST block. Non-trivial: at least one comment was wrapped onto >= 2 output lines and there is a group of >= 2 '
+        'instructions (tables: a cell was wrapped or the table exceeds the width); '
         'distinct = digest of (file, settings).')
 ASSUMPTIONS = [
-    'annotation text is macro-free (macro expansion is C17\'s subject); no word consists only of dots; braces are balanced and never the first or last character of a comment (except instruction comments in control files, where sna2skool is documented to pad them)',
+    'annotation text is macro-free (macro expansion is C17\'s subject) apart from the generated #TABLE/#LIST blocks; no word consists only of dots; braces are balanced and never the first or last character of a comment (except instruction comments in control files, where sna2skool is documented to pad them)',
+    'tables: the width predicate is judged only when no word of a :w column is longer than wrap-column-width-min (the greedy width allocation of TableWriter is not required to find a fit otherwise); needless wrapping is not judged',
     'register names are written without delimiters (a delimited name is documented to lose its delimiters)',
     'HTML output is compared after unescaping entities; only white space may differ',
 ]
@@ -580,12 +583,233 @@ def _strip_braces(stream):
     return out
 
 
+# --------------------------------------------------------------------------- D: #TABLE / #LIST blocks (skool2asm, skool2html)
+TWORD = st.one_of(
+    st.sampled_from(['a', 'the', 'of', 'HL', 'x.', 'e.g.', '(IX+2)', '65535', 'R&D', '1<2', '-', ';', 'a;b']),
+    st.text(LETTERS, min_size=1, max_size=12),
+    st.text(LETTERS, min_size=1, max_size=12),
+    st.integers(13, 45).map(lambda n: ('unbreakable' * 5)[:n]),
+)
+SWORD = st.one_of(st.sampled_from(['a', 'the', 'of', 'HL', 'x.', 'e.g.', '(IX+2)', '65535', 'R&D', '1<2', '-', ';', 'a;b']), st.text(LETTERS, min_size=1, max_size=8))
+CELL = st.lists(TWORD, min_size=1, max_size=9)
+NARROW = st.lists(SWORD, min_size=1, max_size=2)
+WIDE = st.lists(SWORD, min_size=4, max_size=24)
+
+
+@st.composite
+def table_cases(draw):
+    kind = draw(st.sampled_from(['table-asm', 'table-asm', 'table-asm', 'table-html']))
+    props = {'line-width': draw(st.sampled_from([79, 79, 40, 50, 60, 120]) | st.integers(40, 200))}
+    wmin = draw(st.sampled_from([None, None, 5, 20]))
+    if wmin is not None:
+        props['wrap-column-width-min'] = wmin
+    where = draw(st.sampled_from(['desc', 'desc', 'mid']))
+    ncols = draw(st.integers(1, 4))
+    # column profiles: narrow columns of one or two short words, wide columns of many short words (the tables people
+    # write: most can be made to fit by wrapping the wide columns), and 'any' with occasional unbreakable words
+    profile = [draw(st.sampled_from(['narrow', 'wide', 'wide', 'any'])) for _ in range(ncols)]
+    style = draw(st.sampled_from(['wide-wrap', 'wide-wrap', 'random']))
+    if style == 'wide-wrap':
+        wrap_cols = [k for k in range(ncols) if profile[k] == 'wide']
+    else:
+        wrap_cols = sorted(set(draw(st.lists(st.integers(0, ncols - 1), max_size=ncols))))
+    cell = {'narrow': NARROW, 'wide': WIDE, 'any': CELL}
+    nrows = draw(st.integers(1, 5))
+    rows = []
+    for r in range(nrows):
+        header = r == 0 and draw(st.booleans())
+        if ncols > 1 and r > 0 and draw(st.sampled_from([0, 0, 0, 0, 0, 0, 1])):
+            rows.append({'span': True, 'header': False, 'cells': [draw(CELL)]})
+        else:
+            rows.append({'span': False, 'header': header, 'cells': [draw(NARROW if header else cell[profile[k]]) for k in range(ncols)]})
+    classes = ['default'] + [(draw(st.sampled_from(['', 'centre'])) + (':w' if k in wrap_cols else '')) for k in range(ncols)]
+    while classes and classes[-1] == '':
+        classes.pop()
+    items = draw(st.lists(st.lists(TWORD, min_size=1, max_size=25), min_size=0, max_size=3))
+    intro, outro = draw(TEXT), draw(TEXT)
+    block = ['#TABLE(%s)' % ','.join(classes)] if classes else ['#TABLE']
+    for row in rows:
+        if row['span']:
+            block.append('{ =c%d %s }' % (ncols, ' '.join(row['cells'][0])))
+        else:
+            block.append('{ %s }' % ' | '.join(('=h ' if row['header'] else '') + ' '.join(c) for c in row['cells']))
+    block.append('TABLE#')
+    if items:
+        block.append('#LIST')
+        block += ['{ %s }' % ' '.join(i) for i in items]
+        block.append('LIST#')
+    para = ['; ' + l for l in _lay(draw, intro)] + ['; ' + l for l in block] + ['; ' + l for l in _lay(draw, outro)]
+    lines = ['@start', '@org', '; Title']
+    if where == 'desc':
+        lines += [';'] + para + ['c32768 XOR A ; first', ' 32769 RET ; last']
+    else:
+        lines += ['c32768 XOR A ; first'] + para + [' 32769 RET ; last']
+    return {'kind': kind, 'skool': '\n'.join(lines) + '\n', 'props': props, 'where': where, 'ncols': ncols, 'wrap_cols': wrap_cols,
+            'rows': rows, 'items': items, 'intro': intro, 'outro': outro}
+
+
+def table_oracle(case, rec=None):
+    if case['kind'] == 'table-html':
+        return table_html_oracle(case, rec)
+    props = case['props']
+    width = props['line-width']
+    with cli.Scratch('c18t-') as s:
+        argv = ['-q']
+        for k, v in props.items():
+            argv += ['-P', '%s=%s' % (k, v)]
+        r = cli.run('skool2asm', argv + [s.write('in.skool', case['skool'])])
+    if r.exc is not None:
+        raise Violation(crash_sig(r.exc, 'skool2asm'), 'skool2asm raised %r on a #TABLE/#LIST block' % r.exc, case)
+    if not r.ok:
+        raise Violation('skool2asm-exit', 'skool2asm exited %r: %s' % (r.code, r.err[-200:]), case)
+    lines = [l for l in r.out.split('\n') if l.startswith(';')]
+    tl = [i for i, l in enumerate(lines) if re.match(r'^; [+|]', l)]
+    if not tl or tl != list(range(tl[0], tl[-1] + 1)):
+        raise Violation('table:not-rendered', 'no contiguous rendered table found in the ASM output: %r' % lines[:12], case)
+    table = [l[2:] for l in lines[tl[0]:tl[-1] + 1]]
+    before = lines[:tl[0]]
+    after = lines[tl[-1] + 1:]
+    ncols = case['ncols']
+    # --- borders / geometry
+    top = table[0]
+    bottom = table[-1]
+    if not re.match(r'^\+(-+\+)+$', top) or not re.match(r'^\+(-+\+)+$', bottom) or len(top) != len(bottom):
+        raise Violation('table:border', 'first/last table lines are not full borders of equal length: %r / %r' % (top, bottom), case)
+    bounds = [i for i, ch in enumerate(top) if ch == '+']
+    if not set(i for i, ch in enumerate(bottom) if ch == '+') <= set(bounds):
+        raise Violation('table:border', 'bottom border %r does not line up with the top border %r' % (bottom, top), case)
+    if len(bounds) != ncols + 1:
+        raise Violation('table:columns', 'border has %d columns, the table has %d' % (len(bounds) - 1, ncols), case)
+    L = len(top)
+    cols = [[] for _ in range(ncols)]
+    span = []
+    wrapped = False
+    row_lines = 0
+    nsep = 0
+    for l in table[1:-1]:
+        if len(l) != L:
+            raise Violation('table:ragged', 'table line %r is %d characters long, the border %d' % (l, len(l), L), case)
+        if l.startswith('+'):
+            nsep += 1
+            continue
+        if l[0] != '|' or l[-1] != '|':
+            raise Violation('table:edge', 'table line without outer borders: %r' % l, case)
+        inner = [l[b] == '|' for b in bounds[1:-1]]
+        if all(inner):
+            for k in range(ncols):
+                cols[k] += words(l[bounds[k] + 1:bounds[k + 1]])
+        elif not any(inner):
+            span += words(l[1:-1])
+        else:
+            raise Violation('table:cell-borders', 'unexpected cell borders in %r' % l, case)
+        row_lines += 1
+    exp_cols = [[] for _ in range(ncols)]
+    exp_span = []
+    for row in case['rows']:
+        if row['span']:
+            exp_span += row['cells'][0]
+        else:
+            for k in range(ncols):
+                exp_cols[k] += row['cells'][k]
+    for k in range(ncols):
+        if cols[k] != exp_cols[k]:
+            raise Violation('table:words', 'words of column %d differ: %s' % (k + 1, _first_diff(cols[k], exp_cols[k])), case)
+    if span != exp_span:
+        raise Violation('table:words', 'words of the spanning cells differ: %s' % _first_diff(span, exp_span), case)
+    wrapped = row_lines > len(case['rows'])
+    # --- width predicates (TableWriter: only ':w' columns are wrapped, and only as far as needed to fit line-width - 2)
+    maxw = width - 2
+    warned = 'Table in entry at' in r.err
+    if (L > maxw) != warned:
+        raise Violation('table:warning', 'table is %d characters wide, the description width is %d, warning printed: %s' % (L, maxw, warned), case)
+    colw = [bounds[k + 1] - bounds[k] - 3 for k in range(ncols)]
+    wmin = props.get('wrap-column-width-min', 10)
+    nospan = not any(row['span'] for row in case['rows'])
+    if L > maxw and nospan:
+        # "The :w indicator marks a column as a candidate for having its width reduced (by wrapping the text it contains)
+        # so that the table will be no more than <width> characters wide": when no word of a wrap column is longer than
+        # wrap-column-width-min, the table must fit if it can (each wrap column reduced to that minimum)
+        natural = [max(len(' '.join(row['cells'][k])) for row in case['rows']) for k in range(ncols)]
+        longest = [max(len(w) for row in case['rows'] for w in row['cells'][k]) for k in range(ncols)]
+        if all(longest[k] <= wmin for k in case['wrap_cols']):
+            minimal = 3 * (ncols + 1) - 2 + sum(min(natural[k], wmin) if k in case['wrap_cols'] else natural[k] for k in range(ncols))
+            if minimal <= maxw:
+                raise Violation('table:width', 'table is %d wide (> %d) although wrapping its :w columns to wrap-column-width-min=%d gives %d' % (
+                    L, maxw, wmin, minimal), case)
+        elif rec is not None:
+            rec.note('table:width-not-judged:unbreakable-word-in-wrap-column')
+    for k in range(ncols):
+        if k not in case['wrap_cols'] and nospan:
+            natural = max(len(' '.join(row['cells'][k])) for row in case['rows'])
+            if colw[k] != natural:
+                raise Violation('table:width', 'column %d (not wrappable) is %d wide, its widest cell %d' % (k + 1, colw[k], natural), case)
+    # --- surrounding text and list
+    got_before = [w for l in before for w in words(l[1:])]
+    exp_before = ['Title'] + list(case['intro'])
+    if got_before != exp_before:
+        raise Violation('table:words', 'text before the table differs: %s' % _first_diff(got_before, exp_before), case)
+    got_after = []
+    for l in after:
+        ws = words(l[1:])
+        if ws and ws[0] == '*' and l.startswith('; * '):
+            ws = ws[1:]
+        got_after += ws
+        if len(l) > width and len(ws) > 1:
+            raise Violation('table:list-width', 'line of %d characters after the table exceeds line-width=%d: %r' % (len(l), width, l[:100]), case)
+    exp_after = [w for i in case['items'] for w in i] + list(case['outro'])
+    if got_after != exp_after:
+        raise Violation('table:words', 'list items/text after the table differ: %s' % _first_diff(got_after, exp_after), case)
+    nbul = sum(1 for l in after if l.startswith('; * '))
+    if nbul != len(case['items']):
+        raise Violation('table:list-items', '%d bullets for %d list items' % (nbul, len(case['items'])), case)
+    if rec is not None:
+        rec.case((case['skool'], repr(sorted(props.items()))), wrapped or L > maxw,
+                 ['table', 'table:' + case['where']] + (['table:wrapped'] if wrapped else []) + (['table:over-width'] if L > maxw else []) + (['table:list'] if case['items'] else []),
+                 {'props': props, 'skool': case['skool'][:500]})
+
+
+def table_html_oracle(case, rec=None):
+    import html as htmlmod
+    with cli.Scratch('c18h-') as s:
+        sk = s.write('game.skool', case['skool'])
+        r = cli.run('skool2html', ['-q', '-d', s.path('out'), sk])
+        if r.exc is not None:
+            raise Violation(crash_sig(r.exc, 'skool2html'), 'skool2html raised %r on a #TABLE/#LIST block' % r.exc, case)
+        if not r.ok:
+            raise Violation('skool2html-exit', 'skool2html exited %r: %s' % (r.code, r.err[-200:]), case)
+        page = s.read('out/game/asm/32768.html')
+    m = re.search(r'<table class="default">(.*?)</table>', page, re.S)
+    if not m:
+        raise Violation('table:html:not-rendered', 'no <table class="default"> in the entry page', case)
+    body = m.group(1)
+    rows = re.findall(r'<tr>(.*?)</tr>', body, re.S)
+    if len(rows) != len(case['rows']):
+        raise Violation('table:html:rows', '%d <tr> rows for %d table rows' % (len(rows), len(case['rows'])), case)
+    for row, exp in zip(rows, case['rows']):
+        cells = re.findall(r'<(t[dh])([^>]*)>(.*?)</t[dh]>', row, re.S)
+        texts = [words(htmlmod.unescape(re.sub(r'<[^>]+>', ' ', c[2]))) for c in cells]
+        if texts != [list(c) for c in exp['cells']]:
+            raise Violation('table:html:words', 'cells %r, expected %r' % (texts, exp['cells']), case)
+        if exp['span'] and 'colspan="%d"' % case['ncols'] not in cells[0][1]:
+            raise Violation('table:html:colspan', 'spanning cell rendered as %r' % (cells[0][1],), case)
+        if any((c[0] == 'th') != exp['header'] for c in cells):
+            raise Violation('table:html:header', 'header flags differ in row %r' % (row[:80],), case)
+    items = re.findall(r'<li>(.*?)</li>', page, re.S)
+    got_items = [words(htmlmod.unescape(re.sub(r'<[^>]+>', ' ', i))) for i in items]
+    if got_items != [list(i) for i in case['items']]:
+        raise Violation('table:html:list', 'list items %r, expected %r' % (got_items[:3], case['items'][:3]), case)
+    if rec is not None:
+        rec.case((case['skool'], 'html'), True, ['table:html'], {'skool': case['skool'][:500]})
+
+
 # --------------------------------------------------------------------------- plan
 def plan(tier, seed):
     n = 6400 if tier == 'quick' else 120000
     shards = [{'kind': 'skool', 'n': n // 16, 'seed': shard_seed(seed, PROPERTY, i)} for i in range(16)]
     nc = 2400 if tier == 'quick' else 60000
     shards += [{'kind': 'ctl', 'n': nc // 8, 'seed': shard_seed(seed, PROPERTY, 'c%d' % i)} for i in range(8)]
+    nt = 2400 if tier == 'quick' else 80000
+    shards += [{'kind': 'table', 'n': nt // 8, 'seed': shard_seed(seed, PROPERTY, 't%d' % i)} for i in range(8)]
     return shards
 
 
@@ -594,6 +818,8 @@ def _oracle(case, rec=None):
         asm_oracle(case, rec)
     elif case['kind'] == 'html':
         html_oracle(case, rec)
+    elif case['kind'].startswith('table'):
+        table_oracle(case, rec)
     else:
         ctl_oracle(case, rec)
 
@@ -601,6 +827,8 @@ def _oracle(case, rec=None):
 def run_shard(shard, rec):
     if shard['kind'] == 'skool':
         hyp_run(rec, asm_cases(), lambda c: _oracle(c, rec), shard['n'], shard['seed'], shrink_budget_s=40.0)
+    elif shard['kind'] == 'table':
+        hyp_run(rec, table_cases(), lambda c: _oracle(c, rec), shard['n'], shard['seed'], shrink_budget_s=40.0)
     else:
         hyp_run(rec, ctl_cases(), lambda c: _oracle(c, rec), shard['n'], shard['seed'], shrink_budget_s=40.0)
 
@@ -618,6 +846,6 @@ def known_class(sig, case):
 
 MANIFEST_ENTRY = {
     'technique': 'token-stream conservation and width-predicate oracles over Hypothesis-generated annotated skool/control files through skool2asm.main, skool2html.main and sna2skool.main',
-    'level_text': 'Generated skool files with text in every annotation slot (titles, description paragraphs, register lines, start/mid-block/end comments, single, continued and brace-grouped instruction comments; words up to 150 characters, punctuation, inner braces, HTML-special characters) are converted by skool2asm (line-width 40-200, instruction-width, comment-width-min, indent, tab, crlf) and skool2html, and annotated control files by sna2skool -w 40-200; the comment words must come out in order exactly once in the corresponding places, every instruction exactly once attached to its comment, and no line may exceed the width without an unbreakable word - in which case skool2asm must warn.',
-    'level_note': 'Annotation text is macro-free (C17 covers macros); #LIST/#TABLE blocks are not generated. HTML is checked on the default templates only.',
+    'level_text': 'Generated skool files with text in every annotation slot (titles, description paragraphs, register lines, start/mid-block/end comments, single, continued and brace-grouped instruction comments; words up to 150 characters, punctuation, inner braces, HTML-special characters) are converted by skool2asm (line-width 40-200, instruction-width, comment-width-min, indent, tab, crlf) and skool2html, and annotated control files by sna2skool -w 40-200; descriptions and mid-block comments with #TABLE/#LIST blocks by skool2asm and skool2html; the comment words must come out in order exactly once in the corresponding places, every instruction exactly once attached to its comment, and no line may exceed the width without an unbreakable word - in which case skool2asm must warn.',
+    'level_note': 'Annotation text is macro-free (C17 covers macros) apart from generated #TABLE/#LIST blocks (1-4 columns, header rows, full-width colspan rows, :w wrap columns, wrap-column-width-min; no rowspans or transparent cells): per-column word conservation, border geometry, the exact warning condition and the fit-if-it-can width predicate in ASM, row/cell/list structure in HTML. HTML is checked on the default templates only.',
 }
